@@ -121,7 +121,9 @@ pub fn use_context_or_else<T: Clone + 'static, F: FnOnce() -> T>(f: F) -> T {
 pub fn use_scope_depth() -> u32 {
     let root = Root::global();
     let nodes = root.nodes.borrow();
-    let mut current = Some(&nodes[root.current_node.get()]);
+    // A scope that has already been disposed (the current one, or a parent while its children are
+    // still being disposed) ends the walk.
+    let mut current = nodes.get(root.current_node.get());
     let mut depth = 0;
 
     while let Some(next) = current {
@@ -129,7 +131,7 @@ pub fn use_scope_depth() -> u32 {
         if next.parent.is_null() {
             current = None;
         } else {
-            current = Some(&nodes[next.parent]);
+            current = nodes.get(next.parent);
         }
     }
     depth
